@@ -1388,6 +1388,10 @@ func (e *Engine) execUnOp(st *State, f *Frame, ins *ssa.UnOp) {
 			ok = false
 		} else if e.runLazyGo(st, ins) {
 			return
+		} else if o.isTimer && o.timerActive {
+			// nothing else can happen: the armed timer/ticker fires
+			st.clock += e.fireTimer(st, ch.obj)
+			v = AggVal{[]Value{e.ctx.BV(64, 1<<63), e.ctx.BV(64, uint64(st.clock)), PtrVal{}}}
 		} else {
 			e.unsupported(st, "blocking channel receive")
 		}
